@@ -139,6 +139,7 @@ def register(reg):
     register_extend_terms_sql(reg)
     register_select_rows_sql(reg)
     register_rename_sql(reg)
+    register_select_columns_sql(reg)
     register_map_sql(reg)
     register_order_steps(reg)
     register_small_steps(reg)
@@ -552,7 +553,69 @@ def register_select_rows_sql(reg):
                                          ("node-allocated", c.eng.allocated(c.st, c.select_rows_node)), ("source-allocated", c.eng.allocated(c.st, VScalar(c.field(c.select_rows_node, "sources").arr[0], NODE)))]))
 
 
-KEYS_C08_SQL = ["SQLModel.select_rows_to_near_sql", "SQLModel.rename_to_near_sql", "SQLModel.map_columns_to_near_sql"]
+KEYS_C08_SQL = ["SQLModel.select_rows_to_near_sql", "SQLModel.rename_to_near_sql", "SQLModel.map_columns_to_near_sql", "SQLModel.select_columns_to_near_sql"]
+
+
+# ====================================================================== C08: SQLModel.select_columns_to_near_sql (narrows the sub-query's own term dictionary in place)
+def register_select_columns_sql(reg):
+    import z3
+    from pyvc.api import Contract, T, VList, VNone, VOpt, VPy, VScalar, VSet, VStr, VTuple, VDict, fresh_name
+    from contracts.vr_common import COLS, NODE
+    SM = T.obj("SQLModel")
+    TERMS = T.dict(T.atom, T.oatom)
+    reg.add_class("NearSQLObj", {"terms": T.opt(TERMS)}, file="data_algebra/near_sql.py")
+    NQ = T.obj("NearSQLObj")
+
+    def cu_apply(eng, st, argmap, node):
+        S = eng.S
+        arr = z3.Const(fresh_name("subusing"), z3.ArraySort(S.Atom, z3.BoolSort()))
+        st.assume(z3.Not(arr[S.NONE]))
+        return [(st, VTuple([VSet(arr, T.set(T.atom))], is_list=True))]
+
+    reg.add(Contract(key="SelectColumnsNode.columns_used_from_sources", cls="SelectColumnsNode", params={"self": T.obj("SelectColumnsNode")}, assumed=True, apply=cu_apply,
+                     note="columns_used_from_sources returns one set of source columns (its own obligations: C10)"))
+
+    def tnsi_apply(eng, st, argmap, node):
+        """the source's translation: a query object whose term dictionary is None ('*': all its columns) or has exactly the requested columns as keys"""
+        S = eng.S
+        q = eng.alloc(st, "NearSQLObj")
+        terms = eng.read_field(st, q, "terms")
+        u = eng.set_of(argmap["using"], st, node).arr
+        st.ghost["sub_query"] = q
+        st.ghost["sub_using"] = u
+        st.ghost["sub_terms_before"] = terms
+        k = z3.Const(fresh_name("k"), S.Atom)
+        st.assume(z3.Implies(z3.Not(terms.is_none), z3.ForAll([k], terms.val.dom[k] == u[k])))
+        eng.registry.note("assumed: source.to_near_sql_implementation_(using=U) returns a query whose terms are None (all columns) or keyed by exactly U")
+        return [(st, q)]
+
+    saved = reg.contracts.get("ViewRepresentation.to_near_sql_implementation_")
+
+    def ens(c):
+        S, eng, st = c.S, c.eng, c.st
+        if c.raised:
+            return []
+        q = st.ghost.get("sub_query")
+        if q is None:
+            return [("translates-the-source", z3.BoolVal(False))]
+        before, u = st.ghost["sub_terms_before"], st.ghost["sub_using"]
+        after = c.field(q, "terms")
+        sel = eng.list_mem(c.field(c.select_columns_node, "column_selection"), st)
+        k = z3.Const("sc_k", S.Atom)
+        return [("returns-the-source's-query-object", c.result.z == q.z),
+                ("a-'*'-sub-query-stays-'*' (never a non-dictionary term collection)", z3.Implies(before.is_none, after.is_none)),
+                ("otherwise-the-terms-are-narrowed-to-the-selected-columns-that-are-needed, with their SQL unchanged",
+                 z3.Implies(z3.Not(before.is_none), z3.And(z3.Not(after.is_none), z3.ForAll([k], z3.And(after.val.dom[k] == z3.And(sel[k], u[k]), z3.Implies(after.val.dom[k], after.val.val[k] == before.val.val[k]))))))]
+
+    c_sel = Contract(key="SQLModel.select_columns_to_near_sql", file="data_algebra/sql_model.py", qualname="SQLModel.select_columns_to_near_sql", cls="SQLModel",
+                     params={"self": SM, "select_columns_node": T.obj("SelectColumnsNode"), "using": T.opt(T.obj("OrderedSet")), "temp_id_source": Ty_py_none(), "sql_format_options": Ty_py_none()},
+                     returns=NQ, ensures=ens, modifies=(("OrderedSet", "impl"), ("NearSQLObj", "terms")),
+                     requires=lambda c: [("is-a-select_columns-node", c.field(c.select_columns_node, "node_name").z == c.S.str_const("SelectColumnsNode")), ("one-source", c.field(c.select_columns_node, "sources").n == 1),
+                                         ("node-allocated", c.eng.allocated(c.st, c.select_columns_node)), ("source-allocated", c.eng.allocated(c.st, VScalar(c.field(c.select_columns_node, "sources").arr[0], NODE)))])
+    # this target sees the source's translation as an OBJECT with a term dictionary; the other *_to_near_sql targets only pass it on
+    c_sel.call_overrides = {"ViewRepresentation.to_near_sql_implementation_": tnsi_apply}
+    _ = saved
+    reg.add(c_sel)
 
 
 # ====================================================================== C08/C15: SQLModel.map_columns_to_near_sql
